@@ -139,16 +139,34 @@ def s4_schedule(ctx):
     ws = writers_of_attr(ctx.M, 'rebalance_schedule')
     ctx.require(len(ws) == 1 and ws[0].fn.qn == 'BacktestTradingSession.__init__', 'C14.S4', 'the schedule is written once, in the constructor', ws[0].where if ws else None,
                 [w.fn.qn for w in ws], key='C14.S4|writer')
-    for w in ws:
-        v = w.node.value if isinstance(w.node, ast.Assign) else None
-        ok = isinstance(v, ast.Call) and ast.unparse(v) == 'self._create_rebalance_event_times()'
-        ctx.require(ok, 'C14.S4', 'the schedule is the rebalancer\'s schedule, unfiltered', w.where, ast.unparse(v) if v is not None else None, key='C14.S4|source')
-    fn = ctx.fn('BacktestTradingSession._create_rebalance_event_times')
-    ps = summarise(ctx, fn, policy=no_inline)
-    for p in ps:
-        if p.outcome == 'return':
-            ok = p.value[0] == 'attr' and p.value[2] == 'rebalances' and p.value[1][0] == 'call'
-            ctx.require(ok, 'C14.S4', 'the schedule is the rebalancer\'s schedule, unfiltered [%s]' % cond_str(p)[:60], fn.site(), fmt(p.value)[:120], key='C14.S4|unfiltered')
+    # what the constructor stores as the schedule, with the session's own helpers (methods and module-level factories) read through: for every configured
+    # frequency it is the `rebalances` list of a Rebalance object (possibly copied), not a filtered or re-mapped version of it
+    from ..symex import Valuation, Undecided
+    init = ctx.fn('BacktestTradingSession.__init__')
+
+    def own(caller, callee, depth):
+        return depth <= 5 and callee.path == init.path and callee.name != '__init__' and not callee.is_property
+    for name in ('buy_and_hold', 'daily', 'weekly', 'end_of_month'):
+        try:
+            ps = summarise(ctx, init, policy=own, oracle=Valuation(strs={'rebalance': name, 'self.rebalance': name}))
+        except Undecided as u:
+            ctx.undecided('C14.S4', 'the schedule is the rebalancer\'s schedule, unfiltered [%s]' % name, init.site(), str(u)[:120])
+            continue
+        for p in normal(ps):
+            w = heap_writes(p, 'rebalance_schedule')
+            if not w:
+                continue
+            v = w[-1].value
+            while v is not None and v[0] == 'call' and v[1] in (('ext', 'LIST'), ('ext', 'TUPLE'), ('meth', 'copy')) and len(v[2]) == 1 and not v[3]:
+                v = v[2][0]
+            if v is not None and v[0] == 'attr' and v[2] == 'rebalances' and v[1][0] == 'call':
+                ctx.holds('C14.S4', 'the schedule is the rebalancer\'s schedule, unfiltered [%s]' % name, w[-1].site)
+            elif v is not None and v[0] == 'comp' and any(g_[2] for g_ in v[3]) and any(s_[0] == 'attr' and s_[2] == 'rebalances' for s_ in T.subterms(v)):
+                ctx.violation('C14.S4', 'the schedule is the rebalancer\'s schedule, unfiltered [%s]' % name, w[-1].site, 'filtered: %s' % fmt(v)[:160], key='C14.S4|unfiltered')
+            elif v is not None and v[0] == 'sub' and v[2][0] == 'slice' and any(s_[0] == 'attr' and s_[2] == 'rebalances' for s_ in T.subterms(v)):
+                ctx.violation('C14.S4', 'the schedule is the rebalancer\'s schedule, unfiltered [%s]' % name, w[-1].site, 'sliced: %s' % fmt(v)[:160], key='C14.S4|unfiltered')
+            else:
+                ctx.undecided('C14.S4', 'the schedule is the rebalancer\'s schedule, unfiltered [%s]' % name, w[-1].site, fmt(v)[:160] if v else None)
     ws = writers_of_attr(ctx.M, 'burn_in_dt')
     ctx.require(all(w.fn.name == '__init__' for w in ws), 'C14.S4', 'the burn-in time is set only by the constructor', ws[0].where if ws else None, key='C14.S4|burn-in')
 
